@@ -559,15 +559,6 @@ def gen_addsub_exponents(rng, n):
             pa, pb = rng.choice([(p, p), (p, p), (p, max(ndigits(B, y[0]), 1)), (max(ndigits(B, x[0]), 1), p)])
             yield Case("f." + op, [fenc(B, x[0], x[1], pa, m), fenc(B, y[0], y[1], pb, m)])
 
-def kf_add_exponent_gap(args):
-    """`(lhs.exponent - rhs.exponent) as usize` of repr_add_large_small / repr_add_small_large (float/src/add.rs:303, 405)
-    overflows isize: both operands non-zero (a zero operand takes the shortcut) and their exponents >= 2^63 apart"""
-    B, s1, e1, _, _ = fdec(args[0]); _, s2, e2, _, _ = fdec(args[1])
-    if s1 == 0 or s2 == 0:
-        return False
-    s1, e1 = normalize(B, s1, e1); s2, e2 = normalize(B, s2, e2)
-    return abs(e1 - e2) >= 2 ** 63
-
 def _div_exp_bounds(B, s1, e1, s2, e2, p):
     """(e0, lo, hi): e0 = lhs.exponent - rhs.exponent as repr_div forms it first; every result exponent of the division lies in
     [lo, hi] (the quotient has at most p+1 digits below / dx-dy+1 digits above B^e0, a rounding carry included)"""
@@ -607,21 +598,6 @@ def gen_div_exponents(rng, n):
             yield Case("c.div", [fenc(B, a, e1, 0, m), fenc(B, b, e2, 0, m), dec(p)])
         else:
             yield Case("f.div", [fenc(B, a, e1, p, m), fenc(B, b, e2, p, m)])
-
-def kf_div_exponent_overflow(args, model):
-    """`lhs.exponent - rhs.exponent` of Context::repr_div (float/src/div.rs:227) exceeds isize::MAX although the exponent of the
-    required result (the model's, computed with unbounded exponents) is representable"""
-    B, s1, e1, p1, _ = fdec(args[0]); _, s2, e2, p2, _ = fdec(args[1])
-    if s1 == 0 or s2 == 0:
-        return False
-    s1, e1 = normalize(B, s1, e1); s2, e2 = normalize(B, s2, e2)
-    t = model.split()
-    if e1 - e2 <= IMAX or len(t) < 3 or t[0] != "ok":
-        return False
-    try:
-        return IMIN <= int(t[2]) <= IMAX
-    except ValueError:
-        return False
 
 def kf_sqrt_exponent_overflow(args):
     """(repaired by /repo 8f4bf4b: `fixed:` line, no entry calls this any more; kept as the description of the input class that
@@ -740,12 +716,11 @@ FRONTIER = ["UBig::sqrt_rem: a parameter with its C12 contract (SqrtRemOk); Prop
             "p >= 1 with only the operand-LENGTH hypothesis `digits <= usize::MAX` of context_mul_is_model / "
             "regenerated_mul_contract, true of every value in memory). Still NOT mirrored and still a finding: "
             "`self.precision as isize * 2` in Context::sqrt (root.rs:52) for p >= 2^62",
-            "machine-integer width of the exponents: the model's exponents are Ints. add/sub: driven at the isize limits (round 6); the "
-            "one divergence is a finding (exponent gap >= 2^63 subtracted in isize, add.rs:303/405, proposed_fixes/"
-            "c03-float-add-exponent-gap-overflow.diff). div: driven likewise; divergence = finding (`lhs.exponent - rhs.exponent` > "
-            "isize::MAX with a representable result exponent, div.rs:227, proposed_fixes/c03-float-div-exponent-difference-overflow"
-            ".diff). NOT driven: mul/sqr/cubic/inv at extreme exponents, and every result whose exponent leaves isize (exponent sums, "
-            "`e -= shift` of repr_div at isize::MIN, carries at isize::MAX) - no documented behaviour to compare with",
+            "machine-integer width of the exponents: the model's exponents are Ints. add/sub/div are driven at the isize limits "
+            "(round 6: gen_addsub_exponents, gen_div_exponents) and agree with the code since fixes f187713 (exponent gap >= 2^63) "
+            "and 545c24c (lhs.exponent - rhs.exponent > isize::MAX with a representable result). NOT driven: mul/sqr/cubic/inv at "
+            "extreme exponents, and every result whose exponent leaves isize (exponent sums, `e -= shift` of repr_div at "
+            "isize::MIN, carries at isize::MAX) - no documented behaviour to compare with",
             "clause `|r - x| < 1 ulp` for Context methods on Reprs longer than the working length: only `_partial` / "
             "`*_contract_outside_region` theorems (the code violates the clause inside the regions: counterexample theorems)"]
 THEOREMS = ["Dashu.Props.C03." + t for t in (
